@@ -79,6 +79,13 @@ func (x *Exec) evalClauseInFrame(st *State, fr *Frame, c *Clause, lp *Loop) (*Te
 	if st.old == nil {
 		env.old = st
 	}
+	if c.Kind == "recvinv" && len(fr.fn.Params) > 0 {
+		env.vars[c.Param] = fr.env[fr.fn.Params[0]]
+	}
+	if !fr.root {
+		// a loop inside an inlined callee: old(...) is not meaningful there
+		env.old = st
+	}
 	return env.evalBool(c.Expr)
 }
 
@@ -255,6 +262,29 @@ func (e *SpecEnv) ident(name string) (Value, error) {
 					return v, nil
 				}
 			}
+		}
+		// a variable carried by an earlier loop and unchanged here: the phi of a dominating header
+		var best *ssa.Phi
+		for _, b := range e.frame.fn.Blocks {
+			if !b.Dominates(e.loop.header) || b == e.loop.header {
+				continue
+			}
+			for _, ins := range b.Instrs {
+				phi, ok := ins.(*ssa.Phi)
+				if !ok {
+					break
+				}
+				if phi.Comment == name {
+					if _, ok := e.frame.env[phi]; ok {
+						if best == nil || best.Block().Dominates(b) {
+							best = phi
+						}
+					}
+				}
+			}
+		}
+		if best != nil {
+			return e.frame.env[best], nil
 		}
 	}
 	// package-level constant
@@ -600,6 +630,40 @@ func (e *SpecEnv) call(n *ast.CallExpr) (Value, error) {
 				return nil, err
 			}
 			return Sel("err_msg", a), nil
+		case "atoi":
+			t, err := e.evalTerm(n.Args[0])
+			if err != nil {
+				return nil, err
+			}
+			return App("itoa_inv", "Int", t), nil
+		}
+		if mc := e.lookupMacro(id.Name); mc != nil {
+			if len(n.Args) != len(mc.Params) {
+				return nil, fmt.Errorf("macro %s expects %d arguments", mc.Name, len(mc.Params))
+			}
+			saved := map[string]Value{}
+			had := map[string]bool{}
+			var vals []Value
+			for _, a := range n.Args {
+				v, err := e.eval(a)
+				if err != nil {
+					return nil, err
+				}
+				vals = append(vals, v)
+			}
+			for i, p := range mc.Params {
+				saved[p], had[p] = e.vars[p]
+				e.vars[p] = vals[i]
+			}
+			res, err := e.eval(mc.Expr)
+			for _, p := range mc.Params {
+				if had[p] {
+					e.vars[p] = saved[p]
+				} else {
+					delete(e.vars, p)
+				}
+			}
+			return res, err
 		}
 		// function of the current package (spec function or real pure function)
 		if e.fn != nil {
@@ -636,6 +700,19 @@ func (e *SpecEnv) call(n *ast.CallExpr) (Value, error) {
 		return e.methodCall(recv, sel.Sel.Name, n.Args)
 	}
 	return nil, fmt.Errorf("unsupported call %s", exprString(n))
+}
+
+func (e *SpecEnv) lookupMacro(name string) *Macro {
+	f := e.fn
+	var pkg *ssa.Package
+	for f != nil && pkg == nil {
+		pkg = f.Pkg
+		f = f.Parent()
+	}
+	if pkg == nil {
+		return nil
+	}
+	return e.x.w.macros[shortPkg(pkg.Pkg.Path())+"."+name]
 }
 
 func (e *SpecEnv) lookupFunc(name string) *ssa.Function {
@@ -780,9 +857,16 @@ func (e *SpecEnv) quant(kind string, n *ast.CallExpr) (Value, error) {
 	if err != nil {
 		return nil, err
 	}
-	hi, err := e.evalTerm(n.Args[2])
-	if err != nil {
-		return nil, err
+	var hi *Term
+	unbounded := false
+	if hid, ok := n.Args[2].(*ast.Ident); ok && hid.Name == "inf" {
+		unbounded = true
+		hi = IntT(0)
+	} else {
+		hi, err = e.evalTerm(n.Args[2])
+		if err != nil {
+			return nil, err
+		}
 	}
 	e.x.fresh++
 	bv := VarT(fmt.Sprintf("%s!b%d", id.Name, e.x.fresh), "Int")
@@ -798,8 +882,11 @@ func (e *SpecEnv) quant(kind string, n *ast.CallExpr) (Value, error) {
 		return nil, err
 	}
 	rng := And(Cmp("<=", lo, bv), Cmp("<", bv, hi))
+	if unbounded {
+		rng = Cmp("<=", lo, bv)
+	}
 	// small constant ranges are expanded
-	if lo.Kind == KInt && hi.Kind == KInt && hi.I-lo.I <= 8 {
+	if !unbounded && lo.Kind == KInt && hi.Kind == KInt && hi.I-lo.I <= 8 {
 		var parts []*Term
 		for i := lo.I; i < hi.I; i++ {
 			parts = append(parts, substTerm(body, []*Term{bv}, []*Term{IntT(i)}))
@@ -912,11 +999,8 @@ func (e *SpecEnv) eventExpr(kind string, n *ast.CallExpr) (Value, error) {
 		if kind == "calls" && st.evEpoch == "" {
 			return IntT(0), nil
 		}
-		if st.evEpoch == "" {
-			return nil, fmt.Errorf("event %s has not occurred on this path (use calls(%s) guards)", id.Name, id.Name)
-		}
-		// symbolic epoch: create with sorts from the static signature table
-		as, rs, ok := e.x.w.eventSorts(id.Name)
+		// create with sorts from the static signature table (count 0 in a concrete epoch)
+		as, rs, ok := e.x.w.eventSorts(id.Name, e.fn)
 		if !ok {
 			return nil, fmt.Errorf("unknown event %s", id.Name)
 		}
